@@ -39,6 +39,8 @@ def qbytes_int_mm(activations: torch.Tensor, weights: torch.Tensor, output_scale
     out_features = weights.shape[0]
     # torch._int_mm works on transposed weights, i.e (in_features, out_features)
     weights = weights.t()
+    # torch._int_mm requires contiguous activations
+    activations = activations.contiguous()
     if activations.ndim == 2:
         out_data = torch._int_mm(activations, weights)
     else:
@@ -52,8 +54,9 @@ def qbytes_int_mm(activations: torch.Tensor, weights: torch.Tensor, output_scale
 
 
 def qbytes_int8pack_mm(activations: torch.Tensor, weights: torch.Tensor, output_scales: torch.Tensor) -> torch.Tensor:
-    # torch._weight_int8pack_mm expects a vector of scales
-    output_scales = output_scales.flatten()
+    # torch._weight_int8pack_mm expects a vector of scales (one per output feature) and contiguous activations
+    output_scales = output_scales.flatten().expand(weights.shape[0]).contiguous()
+    activations = activations.contiguous()
     if activations.ndim == 2:
         return torch._weight_int8pack_mm(activations, weights, output_scales)
     else:
